@@ -673,3 +673,34 @@ func (w *World) GlobalConst(g *ssa.Global) string {
 	}
 	return name
 }
+
+// globalInitString: v is a load of an immutable package-level []byte variable that the package initialiser sets to
+// []byte("literal"): returns the literal.  (A12 extended to the contents: such byte slices are used as constants.)
+func (w *World) globalInitString(v ssa.Value) (string, bool) {
+	u, ok := v.(*ssa.UnOp)
+	if !ok {
+		return "", false
+	}
+	g, ok := u.X.(*ssa.Global)
+	if !ok || !w.ImmutableGlobal(g) || g.Pkg == nil {
+		return "", false
+	}
+	init := g.Pkg.Func("init")
+	if init == nil {
+		return "", false
+	}
+	for _, b := range init.Blocks {
+		for _, in := range b.Instrs {
+			st, ok := in.(*ssa.Store)
+			if !ok || st.Addr != ssa.Value(g) {
+				continue
+			}
+			if cv, ok := st.Val.(*ssa.Convert); ok {
+				if c, ok := cv.X.(*ssa.Const); ok && c.Value != nil && isString(c.Type()) {
+					return constant.StringVal(c.Value), true
+				}
+			}
+		}
+	}
+	return "", false
+}
